@@ -379,6 +379,13 @@ def subst(v, env):
         rep = env[v['root']]
         path = v.get('path', [])
         cur = rep
+        if path and isinstance(rep, dict) and rep.get('k') == 'atom':
+            # a field path of a parameter bound to a plain access path stays a plain access path
+            cur = dict(rep, path=list(rep.get('path', [])) + list(path))
+            cur.pop('ty', None)
+            if v.get('ty'):
+                cur['ty'] = v['ty']
+            return cur
         for f in path:
             cur = {'k': 'field', 'base': cur, 'name': f}
         if isinstance(cur, dict) and v.get('ty') and 'ty' not in cur:
